@@ -63,6 +63,19 @@ NET = [
       encodes=["LaxIpSlice::from_slice", "all accessors"]),
 ]
 
+TRANSPORT = [
+    H("c01_udp_slice", "c01::transport", unwind=4, bounds="every byte string of length 0..=16, strict and lax",
+      encodes=["UdpHeaderSlice::from_slice", "UdpHeader::from_slice", "UdpSlice::from_slice", "UdpSlice::from_slice_lax", "all accessors"]),
+    H("c01_tcp_header_slice_64_noiter", "c01::transport", unwind=4, timeout=900, bounds="every byte string of length 0..=64 (all data offsets); option iterator: see C13 harnesses",
+      encodes=["TcpHeaderSlice::from_slice + all accessors"]),
+    H("c01_tcp_slice_64_noiter", "c01::transport", unwind=4, timeout=900, bounds="every byte string of length 0..=64 (all data offsets); option iterator not run here",
+      encodes=["TcpSlice::from_slice + all accessors", "TcpHeader::from_slice"]),
+    H("c01_icmpv4_slice", "c01::transport", unwind=4, bounds="every byte string of length 0..=28",
+      encodes=["Icmpv4Slice::from_slice + accessors + icmp_type + header", "Icmpv4Header::from_slice"]),
+    H("c01_icmpv6_slice", "c01::transport", unwind=4, bounds="every byte string of length 0..=28",
+      encodes=["Icmpv6Slice::from_slice + accessors + icmp_type + header + payload_slice", "Icmpv6Header::from_slice"]),
+]
+
 PROP = {
     "claim": "for every byte string up to the per-harness length N, placed in a heap object of exactly its length, the "
              "decoder, all accessors, conversions and iterators perform no access outside the object (CBMC pointer "
@@ -70,5 +83,5 @@ PROP = {
              "unreachable_unchecked, debug_assert in *_unchecked) and every returned sub-slice lies inside the input",
     "outside": "inputs longer than N; reads of uninitialised memory; aliasing-model UB",
     "assumptions": [],
-    "harnesses": LINK + NET,
+    "harnesses": LINK + NET + TRANSPORT,
 }
